@@ -3,9 +3,12 @@ from pyvc.bounded import run_samplers
 
 PROPERTY = "C05"
 LEVEL = "proof"
-CONTRACT_MODULES = ["contracts.coordinates_c07", "contracts.coordinates_c13", "contracts.blocks_c08", "contracts.base_utils", "contracts.grids_c18", "contracts.compose_c06", "contracts.spline_c03", "contracts.vector_c03", "contracts.models_c03", "contracts.gridder_c05"]
+CONTRACT_MODULES = ["contracts.lsq_c02", "contracts.neighbors_c15", "contracts.coordinates_c07", "contracts.coordinates_c13", "contracts.blocks_c08", "contracts.base_utils", "contracts.grids_c18", "contracts.compose_c06", "contracts.spline_c03", "contracts.vector_c03", "contracts.models_c03", "contracts.gridder_c05"]
 BC = "verde.base.base_classes"
 TARGETS = [BC + ":BaseGridder.grid", BC + ":BaseGridder.profile", BC + ":BaseGridder.scatter", BC + ":project_coordinates", BC + ":get_instance_region", "verde.synthetic:CheckerBoard.scatter"]
+# "region defaulting to the bounding box of the fitted data": region_ is written by every fit - their contracts carry the
+# clause region_ == tight bounding box of the coordinates GIVEN to fit (for Chain: not those of a later, block-reduced step)
+TARGETS += ["verde.chain:Chain.fit", "verde.vector:Vector.fit", "verde.trend:Trend.fit", "verde.spline:Spline.fit", "verde.vector:VectorSpline2D.fit", "verde.neighbors:KNeighbors.fit", "verde.scipygridder:_BaseScipyGridder.fit"]
 MIN_OBLIGATIONS = {"quick": 100, "thorough": 100}
 EXPLANATION = (
     "The real BaseGridder.grid / profile / scatter run on an ABSTRACT gridder (predict = an arbitrary uninterpreted function of "
